@@ -1311,20 +1311,22 @@ Error CodeHolder::relocate_to_base(uint64_t base_address, RelocationSummary* sum
     }
   }
 
-  // Fixup the virtual size of the address table if it's the last section.
-  if (_sections_by_order.last() == address_table_section) {
-    ASMJIT_ASSERT(address_table_section != nullptr);
-
+  if (address_table_section != nullptr) {
+    // The slots that were written are the content of the address table regardless of where the section is.
     size_t reserved_size = size_t(address_table_section->_virtual_size);
     size_t address_table_size = address_table_entry_size * address_size;
 
     address_table_section->_buffer._size = address_table_size;
-    address_table_section->_virtual_size = address_table_size;
 
-    ASMJIT_ASSERT(reserved_size >= address_table_size);
-    size_t code_size_reduction = reserved_size - address_table_size;
+    // Fixup the virtual size of the address table if it's the last section.
+    if (_sections_by_order.last() == address_table_section) {
+      address_table_section->_virtual_size = address_table_size;
 
-    summary_out->code_size_reduction = code_size_reduction;
+      ASMJIT_ASSERT(reserved_size >= address_table_size);
+      size_t code_size_reduction = reserved_size - address_table_size;
+
+      summary_out->code_size_reduction = code_size_reduction;
+    }
   }
 
   return Error::kOk;
